@@ -41,7 +41,7 @@ impl VecSource {
             data: interleaved,
             pos: 0,
             delivery: Delivery::Ints,
-            bytes_per_sample: (g.bps + 7) / 8,
+            bytes_per_sample: g.bps.saturating_add(7) / 8,
             hint: true,
             fill_at_eof: true,
             fail_at: None,
